@@ -13,7 +13,6 @@ import (
 // C01, schedule part: interleavings of the per-peer receive goroutines, FSM state changes and
 // management operations, explored exhaustively up to a preemption bound.
 
-
 func init() {
 	rs := &simRoutesScenario{}
 	ann := func(w *schedWorld, bot, pfx, variant int) *bgp.BGPMessage {
